@@ -1,4 +1,225 @@
-//! DWARF synthesis and read-back (gimli 0.32).  Never depends on walrus.
-pub fn minimal_sections(_wasm: &[u8]) -> Vec<(String, Vec<u8>)> {
-    vec![]
+//! DWARF synthesis and read-back with gimli 0.32 (never depends on walrus or gimli 0.26).
+//!
+//! Conventions (LLVM's for wasm): code addresses are offsets from the first byte of the code
+//! section *contents* (the function-count LEB); one DW_TAG_subprogram per function; one
+//! line-table row per instruction whose **line number is the global ordinal of that
+//! instruction** (1-based), so a row identifies the instruction it claims to describe.
+
+use gimli::write::{Address, AttributeValue, DwarfUnit, EndianVec, LineProgram, LineString, Sections};
+use gimli::{Encoding, Format, LineEncoding, LittleEndian};
+use std::collections::BTreeMap;
+use wmodel::WModule;
+
+#[derive(Clone, Copy, Debug, PartialEq, Eq)]
+pub enum LowPc {
+    /// first byte of the body (after the size LEB), high_pc = body length
+    Body,
+    /// first byte of the code entry (the size LEB), high_pc = entry length
+    Entry,
+}
+
+#[derive(Clone, Copy, Debug)]
+pub struct Opts {
+    pub version: u16,
+    pub one_sequence: bool,
+    /// DWARF 5 only: rows name file 0 (the unit's primary file) or file 1
+    pub file_index: u8,
+    pub low_pc: LowPc,
+}
+
+/// ordinal (line number) of operator #k of local function #f (input function index)
+pub fn ordinal_table(m: &WModule) -> BTreeMap<(u32, usize), u64> {
+    let mut t = BTreeMap::new();
+    let mut n = 0u64;
+    for (fi, f) in m.funcs.iter().enumerate() {
+        if let Some(b) = &f.body {
+            for k in 0..b.ops.len() {
+                n += 1;
+                t.insert((fi as u32, k), n);
+            }
+        }
+    }
+    t
+}
+
+pub fn synthesize(m: &WModule, o: Opts) -> Result<Vec<(String, Vec<u8>)>, String> {
+    let base = m.code_contents_start.ok_or("no code section")?;
+    let encoding = Encoding { format: Format::Dwarf32, version: o.version, address_size: 4 };
+    let mut dwarf = DwarfUnit::new(encoding);
+    let comp_dir = LineString::new(&b"/src"[..], encoding, &mut dwarf.line_strings);
+    let comp_file = LineString::new(&b"main.c"[..], encoding, &mut dwarf.line_strings);
+    let mut program = LineProgram::new(encoding, LineEncoding::default(), comp_dir, None, comp_file.clone(), None);
+    let dir = program.default_directory();
+    let file0 = program.add_file(comp_file, dir, None);
+    let file = if o.version >= 5 && o.file_index == 1 {
+        let other = LineString::new(&b"other.c"[..], encoding, &mut dwarf.line_strings);
+        program.add_file(other, dir, None)
+    } else {
+        file0
+    };
+    let ords = ordinal_table(m);
+    let locals: Vec<(u32, &wmodel::Body)> = m.funcs.iter().enumerate().filter_map(|(i, f)| f.body.as_ref().map(|b| (i as u32, b))).collect();
+    if locals.is_empty() {
+        return Err("no local functions".into());
+    }
+    let first_low = locals[0].1.body.start - base;
+    if o.one_sequence {
+        program.begin_sequence(Some(Address::Constant(first_low)));
+    }
+    for (fi, b) in &locals {
+        let low = b.body.start - base;
+        if !o.one_sequence {
+            program.begin_sequence(Some(Address::Constant(low)));
+        }
+        let seq_base = if o.one_sequence { first_low } else { low };
+        for (k, (_, off)) in b.ops.iter().enumerate() {
+            let row = program.row();
+            row.address_offset = (off - base) - seq_base;
+            row.file = file;
+            row.line = ords[&(*fi, k)];
+            row.column = 1 + (k as u64 % 7);
+            program.generate_row();
+        }
+        if !o.one_sequence {
+            program.end_sequence((b.body.end - base) - seq_base);
+        }
+    }
+    if o.one_sequence {
+        program.end_sequence((locals[locals.len() - 1].1.body.end - base) - first_low);
+    }
+    dwarf.unit.line_program = program;
+    let root = dwarf.unit.root();
+    {
+        let name = dwarf.strings.add(&b"main.c"[..]);
+        let cd = dwarf.strings.add(&b"/src"[..]);
+        let r = dwarf.unit.get_mut(root);
+        r.set(gimli::DW_AT_name, AttributeValue::StringRef(name));
+        r.set(gimli::DW_AT_comp_dir, AttributeValue::StringRef(cd));
+        r.set(gimli::DW_AT_stmt_list, AttributeValue::LineProgramRef);
+        r.set(gimli::DW_AT_low_pc, AttributeValue::Address(Address::Constant(0)));
+    }
+    for (fi, b) in &locals {
+        let id = dwarf.unit.add(root, gimli::DW_TAG_subprogram);
+        let name = dwarf.strings.add(format!("fn{}", fi).into_bytes());
+        let (low, len) = match o.low_pc {
+            LowPc::Body => (b.body.start - base, b.body.end - b.body.start),
+            LowPc::Entry => (b.entry.start - base, b.entry.end - b.entry.start),
+        };
+        let e = dwarf.unit.get_mut(id);
+        e.set(gimli::DW_AT_name, AttributeValue::StringRef(name));
+        e.set(gimli::DW_AT_low_pc, AttributeValue::Address(Address::Constant(low)));
+        e.set(gimli::DW_AT_high_pc, AttributeValue::Udata(len));
+    }
+    let mut sections = Sections::new(EndianVec::new(LittleEndian));
+    dwarf.write(&mut sections).map_err(|e| format!("gimli write: {}", e))?;
+    let mut out = vec![];
+    sections
+        .for_each(|id, data| -> Result<(), ()> {
+            if !data.slice().is_empty() {
+                out.push((id.name().to_string(), data.slice().to_vec()));
+            }
+            Ok(())
+        })
+        .map_err(|_| "for_each")?;
+    Ok(out)
+}
+
+/// a minimal well-formed DWARF for C14's "input has DWARF" dimension
+pub fn minimal_sections(wasm: &[u8]) -> Vec<(String, Vec<u8>)> {
+    match wmodel::decode(wasm) {
+        Ok(m) => synthesize(&m, Opts { version: 4, one_sequence: false, file_index: 0, low_pc: LowPc::Body }).unwrap_or_default(),
+        Err(_) => vec![],
+    }
+}
+
+#[derive(Clone, Debug, PartialEq, Eq)]
+pub struct Row {
+    pub address: u64,
+    pub line: u64,
+    pub file: u64,
+    pub file_name: String,
+    pub column: u64,
+    pub end_sequence: bool,
+}
+
+#[derive(Clone, Debug, Default)]
+pub struct ReadBack {
+    pub rows: Vec<Row>,
+    /// (name, low_pc, high_pc as length)
+    pub subprograms: Vec<(String, u64, u64)>,
+    pub version: u16,
+}
+
+pub fn read_back(sections: &BTreeMap<String, Vec<u8>>) -> Result<ReadBack, String> {
+    use gimli::read::{AttributeValue as AV, Dwarf, EndianSlice};
+    let empty: Vec<u8> = vec![];
+    let load = |id: gimli::SectionId| -> Result<EndianSlice<'_, LittleEndian>, gimli::Error> {
+        Ok(EndianSlice::new(sections.get(id.name()).unwrap_or(&empty), LittleEndian))
+    };
+    let dwarf = Dwarf::load(load).map_err(|e| e.to_string())?;
+    let mut rb = ReadBack::default();
+    let mut units = dwarf.units();
+    while let Some(h) = units.next().map_err(|e| format!("unit header: {}", e))? {
+        rb.version = h.version();
+        let unit = dwarf.unit(h).map_err(|e| format!("unit: {}", e))?;
+        if let Some(p) = unit.line_program.clone() {
+            let mut rows = p.rows();
+            while let Some((hdr, row)) = rows.next_row().map_err(|e| format!("line row: {}", e))? {
+                let file_name = match row.file(hdr) {
+                    Some(f) => match dwarf.attr_string(&unit, f.path_name()) {
+                        Ok(s) => String::from_utf8_lossy(s.slice()).to_string(),
+                        Err(_) => "?".to_string(),
+                    },
+                    None => "<no such file>".to_string(),
+                };
+                rb.rows.push(Row {
+                    address: row.address(),
+                    line: row.line().map(|l| l.get()).unwrap_or(0),
+                    file: row.file_index(),
+                    file_name,
+                    column: match row.column() {
+                        gimli::ColumnType::LeftEdge => 0,
+                        gimli::ColumnType::Column(c) => c.get(),
+                    },
+                    end_sequence: row.end_sequence(),
+                });
+            }
+        }
+        let mut entries = unit.entries();
+        while let Some((_, e)) = entries.next_dfs().map_err(|e| format!("entries: {}", e))? {
+            if e.tag() != gimli::DW_TAG_subprogram {
+                continue;
+            }
+            let mut name = String::new();
+            let mut low = None;
+            let mut high = None;
+            let mut attrs = e.attrs();
+            while let Some(a) = attrs.next().map_err(|e| e.to_string())? {
+                match a.name() {
+                    gimli::DW_AT_name => {
+                        if let Ok(s) = dwarf.attr_string(&unit, a.value()) {
+                            name = String::from_utf8_lossy(s.slice()).to_string();
+                        }
+                    }
+                    gimli::DW_AT_low_pc => {
+                        if let AV::Addr(x) = a.value() {
+                            low = Some(x);
+                        }
+                    }
+                    gimli::DW_AT_high_pc => match a.value() {
+                        AV::Udata(x) => high = Some(x),
+                        AV::Addr(x) => high = Some(x.wrapping_sub(low.unwrap_or(0))),
+                        _ => {}
+                    },
+                    _ => {}
+                }
+            }
+            rb.subprograms.push((name, low.unwrap_or(u64::MAX), high.unwrap_or(u64::MAX)));
+        }
+    }
+    Ok(rb)
+}
+
+pub fn debug_sections_of(m: &WModule) -> BTreeMap<String, Vec<u8>> {
+    m.customs.iter().filter(|c| c.name.starts_with(".debug")).map(|c| (c.name.clone(), c.data.clone())).collect()
 }
